@@ -101,7 +101,9 @@ class Dos2UnixHashStreamFile(HashStreamFile):
 
 
 def get_hash_stream(fobj: BinaryIO, name: str = DEFAULT_ALGORITHM) -> HashStreamFile:
-    cls = Dos2UnixHashStreamFile if name == "md5-dos2unix" else HashStreamFile
+    # NOTE: hash names are case-insensitive (see HashStreamFile.__init__)
+    legacy = name.lower() == "md5-dos2unix"
+    cls = Dos2UnixHashStreamFile if legacy else HashStreamFile
     return cls(fobj, hash_name=name)
 
 
